@@ -339,6 +339,40 @@ fn hammer(sink: &mut Sink, millis: u64) -> bool {
         found.push(format!("C05/hammer-accounting after the sweeps: {} keys held, {} ids charged, total {}", after.store.len(), after.key_weights.len(), after.weight_used));
         found.push(format!("C10/weight-not-reclaimed hammer: {} keys held after the sweeps but total {}", after.store.len(), after.weight_used));
     }
+    // ---- a wall clock is not monotone (the `Clock` of a configuration yields `SystemTime`; corrections step it back):
+    //      while the clock jumps back and forth by ten minutes as fast as it can, the ticker keeps sweeping; afterwards the
+    //      background threads must still do their work — a key put with a time-to-live is swept once its deadline has passed
+    {
+        let toggling = Arc::new(AtomicBool::new(true));
+        let toggler = { let (clock, toggling) = (clock.clone(), toggling.clone()); std::thread::spawn(move || {
+            while toggling.load(Ordering::Relaxed) {
+                clock.0.fetch_sub(600_000_000_000, Ordering::SeqCst);
+                std::hint::spin_loop();
+                clock.0.fetch_add(600_000_000_000, Ordering::SeqCst);
+                std::hint::spin_loop();
+            }
+        }) };
+        let until = Instant::now() + Duration::from_millis(120);
+        let mut reads = 0u64;
+        while Instant::now() < until { let _ = cache.get(&(reads % 64)); reads += 1; std::thread::yield_now(); }
+        toggling.store(false, Ordering::SeqCst);
+        let _ = toggler.join();
+        let probe = 7_777_777_777u64;
+        let accepted = cache.put_with_weight_and_ttl(probe, probe, 1, Duration::from_secs(1)).map(|ack| wait_done(&ack) == CommandStatus::Accepted).unwrap_or(false);
+        if !accepted { found.push("C17/worker-died hammer: a put after the clock had jumped back and forth was not accepted".to_string()); }
+        let deadline = Instant::now() + Duration::from_secs(8);
+        let mut swept = false;
+        while accepted && Instant::now() < deadline {
+            clock.0.fetch_add(1_000_000_000, Ordering::SeqCst);
+            std::thread::sleep(Duration::from_millis(10));
+            let snapshot = cache.verif_snapshot();
+            if !snapshot.store.iter().any(|entry| entry.0 == probe) { swept = true; break; }
+        }
+        if accepted && !swept {
+            found.push("C17/sweeper-died hammer: after the clock had jumped back and forth a key whose time-to-live elapsed was never swept (the ticker thread is gone or stuck)".to_string());
+            found.push("C10/expired-key-not-removed hammer: after the clock had jumped back and forth a key whose time-to-live elapsed is still held although every shard was swept many times over".to_string());
+        }
+    }
     sink.both(&format!("# case stress hammer puts={} deletes={} lookups={} held={} live-after-expiry={}", accepted_puts, accepted_deletes, lookups, held, expected_live.len()));
     writeln!(sink.input, "S monitors").unwrap();
     writeln!(sink.implementation, "R {}", if found.is_empty() { "clean".to_string() } else { format!("violations {}", found.join(" ;; ")) }).unwrap();
